@@ -66,4 +66,29 @@ theorem splitLP_joinLP (ls : List Bytes) (h : ∀ l ∈ ls, l.length < 429496729
       simp [joinLP, be32_length] at this ⊢; omega
   omega
 
+/-! ### newline framing -/
+
+theorem splitNLAux_line (l rest acc : Bytes) (hno : (0x0A : UInt8) ∉ l) :
+    splitNLAux (l ++ 0x0A :: rest) acc = dropCR (acc.reverse ++ l) :: splitNLAux rest [] := by
+  induction l generalizing acc with
+  | nil => simp [splitNLAux]
+  | cons b l ih =>
+    have hb : b ≠ 0x0A := fun h => hno (by simp [h])
+    have hl : (0x0A : UInt8) ∉ l := fun h => hno (by simp [h])
+    have : splitNLAux (b :: (l ++ 0x0A :: rest)) acc = splitNLAux (l ++ 0x0A :: rest) (b :: acc) := by
+      rw [splitNLAux]
+      intro h; exact absurd h hb
+    simp only [List.cons_append, this, ih (b :: acc) hl]
+    simp [List.append_assoc]
+
+theorem splitNL_joinNL (ls : List Bytes) (hno : ∀ l ∈ ls, (0x0A : UInt8) ∉ l) :
+    splitNL (joinNL ls) = ls.map dropCR := by
+  unfold splitNL
+  induction ls with
+  | nil => simp [joinNL, splitNLAux]
+  | cons l ls ih =>
+    have : joinNL (l :: ls) = l ++ 0x0A :: joinNL ls := by simp [joinNL]
+    rw [this, splitNLAux_line l _ [] (hno l (by simp))]
+    simp [ih (fun x hx => hno x (by simp [hx]))]
+
 end Icl
